@@ -190,10 +190,30 @@ func genC07(c *Ctx) {
 	nSeeds := 0
 	perEntry := map[string]int{}
 	budget := c.N(500, 5000) // malformed inputs per SMB structure in the second stream
+	smbLoad()
+	smbFactories()
+	oracleOnly := 0
+	// the model has nothing to say about a structure the translator could not follow: a whole message that
+	// the factory routes to such a structure is driven by the oracle only
+	modelled := func(fn string, m []byte) bool {
+		if fn != "msg.unmarshal" || len(m) < 32 {
+			return true
+		}
+		out := callImpl(impls["smb.dispatch"], []Val{U(uint64(m[4])), Bool(m[9]&0x80 != 0)})
+		if len(out.L) != 2 {
+			return true
+		}
+		d := smbDescs[out.L[0].Str()]
+		return d != nil && d.Translated
+	}
 	run := func(fn string, args []Val, idx int, m []byte) {
 		a2 := append([]Val{}, args...)
 		a2[idx] = B(m)
-		c.Case(fn, a2...)
+		if modelled(fn, m) {
+			c.Case(fn, a2...)
+		} else {
+			oracleOnly++
+		}
 		c.Check("c07.total", S(fn), L(a2...))
 		perEntry[fn]++
 	}
@@ -287,8 +307,6 @@ func genC07(c *Ctx) {
 	// every structure the factories can build (the harvest only sees those whose description the translator
 	// could produce): own encodings from random field values, then the malformed stream; structures without
 	// a translated description are checked by the oracle only (the model has nothing to say about them)
-	smbLoad()
-	smbFactories()
 	smbOracleOnly := 0
 	for _, name := range smbNames {
 		d := smbDescs[name]
@@ -326,6 +344,7 @@ func genC07(c *Ctx) {
 	}
 	c.Note("smb_structures", len(smbNames))
 	c.Note("smb_oracle_only_inputs", smbOracleOnly)
+	c.Note("msg_oracle_only_inputs", oracleOnly)
 
 	// decoders for which nothing was harvested are reported (coverage is visible, not assumed)
 	var missing []string
